@@ -18,7 +18,7 @@ METHOD = {"map": "map", "and_then": "and_then", "filter": "filter", "filter_map"
 DOT = {"unwrap_or0": "unwrap_or(0)", "is_some": "is_some()", "ok_or5": "ok_or(5i64)", "into_iter": "into_iter()", "ok": "ok()",
        "count": "count_i()", "sum": "sum::<i64>()", "last": "last()", "len": "len_i()"}
 VAL = {"alt9": "rt::sem::alt9()", "altNone": "rt::sem::alt_none()", "altOk9": "rt::sem::alt_ok9()",
-       "altErr7": "rt::sem::alt_err7()", "iter2": "rt::sem::iter2()"}
+       "altErr7": "rt::sem::alt_err7()", "iter2": "rt::sem::iter2()", "iterL": "rt::sem::iter_l()"}
 RET = {"inc": "i64", "dbl": "i64", "half": "Option<i64>", "chk": "Result<i64, i64>", "isEven": "bool", "isSome": "bool",
        "mk9": "Option<i64>", "rec": "Result<i64, i64>", "refail": "Result<i64, i64>", "e10": "i64", "psum": "i64",
        "addAcc": "i64", "tryAcc": "Option<i64>", "wrapSome": "Option<i64>", "nop": "()"}
